@@ -209,7 +209,6 @@ where
         let mut coms = Vec::new();
         let mut states = Vec::new();
 
-        #[cfg(not(feature = "parallel"))]
         let rng_inner = rng.expect("Committing to polynomials requires a random generator");
 
         for l_poly in polynomials {
@@ -231,17 +230,16 @@ where
 
             let m = flat_to_matrix_column_major(&poly.to_evaluations(), dim, dim);
 
-            // Commiting to the matrix with one multi-commitment per row
-            let (row_coms, com_rands): (Vec<_>, Vec<_>) = cfg_iter!(m)
-                .map(|row| {
-                    #[cfg(not(feature = "parallel"))]
-                    let r = G::ScalarField::rand(rng_inner);
-                    #[cfg(feature = "parallel")]
-                    let r = G::ScalarField::rand(&mut rand::thread_rng());
-                    let c = (Self::pedersen_commit(&ck.com_key, row) + ck.h * r).into();
-                    (c, r)
-                })
-                .unzip();
+            // Commiting to the matrix with one multi-commitment per row. The blinding
+            // scalars come from the caller's generator, one per row and in row order,
+            // whether or not the rows are then processed in parallel.
+            let com_rands: Vec<G::ScalarField> = (0..m.len())
+                .map(|_| G::ScalarField::rand(rng_inner))
+                .collect();
+            let row_coms: Vec<_> = cfg_iter!(m)
+                .zip(cfg_iter!(com_rands))
+                .map(|(row, r)| (Self::pedersen_commit(&ck.com_key, row) + ck.h * *r).into())
+                .collect();
 
             let com = HyraxCommitment { row_coms };
             let l_comm = LabeledCommitment::new(label.to_string(), com, Some(1));
